@@ -60,6 +60,17 @@ impl<'src> Comment<'src> {
         &self.leading_comment
     }
 
+    /// Put the comments of `other` (its leading comment lines, then its
+    /// trailing comment) in front of this comment's leading comment lines.
+    pub fn prepend_comment(&mut self, other: &Self) {
+        let mut lines = other.leading_comment.clone();
+        if !other.trailing_comment.is_empty() {
+            lines.push(other.trailing_comment);
+        }
+        lines.append(&mut self.leading_comment);
+        self.leading_comment = lines;
+    }
+
     pub fn trailing_comment(&self) -> &'src str {
         self.trailing_comment
     }
